@@ -20,7 +20,7 @@ long codeLabels(const std::vector<std::string> &l) { if (l.empty()) return 0; if
 
 // typed descriptor handles as the append calls returned them, kept on the heap and never copied (a handle object may remember
 // things); valid until the descriptors are deleted or the session ends
-struct Kept { std::shared_ptr<nix::SetDimension> se; std::shared_ptr<nix::SampledDimension> sa; std::shared_ptr<nix::RangeDimension> ra; std::shared_ptr<nix::DataFrameDimension> fr; };
+struct Kept { bool any() const { return se || sa || ra || fr; } std::shared_ptr<nix::SetDimension> se; std::shared_ptr<nix::SampledDimension> sa; std::shared_ptr<nix::RangeDimension> ra; std::shared_ptr<nix::DataFrameDimension> fr; };
 struct S {
     std::vector<Kept> kept;
     nix::File f; nix::Block b; nix::DataArray a; nix::DataFrame df;
@@ -35,7 +35,7 @@ struct S {
         df.rows(2);
     }
     void reopen(bool ro) {
-        kept.clear();
+        kept.assign((size_t) a.dimensionCount(), Kept{});      // the old handles die with the session; positions stay aligned with the descriptors
         f.close();
         f = nix::File::open(path, ro ? nix::FileMode::ReadOnly : nix::FileMode::ReadWrite);
         b = f.getBlock("b"); a = b.getDataArray("a"); df = b.getDataFrame("df");
@@ -94,7 +94,7 @@ json observe(S &s) {
             break; }
         }
         // a handle the client kept from the append call must show what a fresh look-up shows
-        if (i < s.kept.size()) {
+        if (i < s.kept.size() && s.kept[i].any()) {
             try {
                 json kv = keptView(s.kept[i]);
                 for (const char *f : {"labels", "interval", "offset", "ticks", "label", "unit"})
@@ -197,7 +197,7 @@ json handle(Ctx &c, const json &rec) {
             result = mismatch("outcome:" + all[i]["a"].get<std::string>(), all[i]["res"], r);
             break;
         }
-        if (!last) { for (auto &q : s.kept) { try { (void) keptView(q); } catch (...) {} } }
+        if (!last) { for (auto &q : s.kept) { try { if (q.any()) (void) keptView(q); } catch (...) {} } }
         if (last) {
             json exp = rec["post"]; exp["issues"] = json::array();
             for (auto &d : exp["dims"]) if (d["col"].is_null()) d["col"] = -1;
